@@ -4,7 +4,7 @@
    outcome the reference predicts satisfies the statement's clauses, and the enumerated states are
    exported (node labels of the state graph) to the Go driver as the table of cases to execute. *)
 EXTENDS SizeLimits, TLC
-CONSTANTS S, L, Cap, Big
+CONSTANTS S, L, Cap, Big, H      \* H = a configured limit ABOVE the 4 MiB receive default
 VARIABLES cfg, tgt
 vars == <<cfg, tgt>>
 
@@ -28,12 +28,22 @@ Configs ==
   \cup
   {[side |-> sd, api |-> "stream", sc |-> 0, dial |-> 0, call |-> 0, srv |-> sv, comp |-> cs[1], shape |-> cs[2], d |-> d] :
       sd \in {"srecv"}, sv \in Lim, cs \in RecvShapes, d \in 0..2}
+  \cup
+  \* a configured receive limit above the default: the default applies ONLY when nothing is configured
+  \* (a handful of megabyte-sized rows: uncompressed, unary)
+  {[side |-> "crecv", api |-> "unary", sc |-> t[1], dial |-> t[2], call |-> t[3], srv |-> 0, comp |-> "none", shape |-> "plain", d |-> d] :
+      t \in {<<H, 0, 0>>, <<0, H, 0>>, <<0, 0, H>>, <<H, L, 0>>, <<L, 0, H>>, <<H, 0, S>>, <<0, S, H>>}, d \in 0..2}
+  \cup
+  {[side |-> "srecv", api |-> "stream", sc |-> 0, dial |-> 0, call |-> 0, srv |-> H, comp |-> "none", shape |-> "plain", d |-> d] : d \in 0..2}
 
 EffOf(c) == Eff(c.side, c.sc, c.dial, c.call, c.srv)
 EffRefOf(c) == EffRef(c.side, c.sc, c.dial, c.call, c.srv)
 \* message size next to the limit: eff-1, eff, eff+1; a limit above Cap (the 2 GiB send default)
 \* cannot be approached: Big, Big+1, Big+2 (all must pass; Big is above the 4 MiB receive default)
-T(c) == IF EffOf(c) > Cap THEN Big + c.d ELSE EffOf(c) + c.d - 1
+\* next to H: just above the default (well within H), H, H+1
+T(c) == IF EffOf(c) > Cap THEN Big + c.d
+        ELSE IF EffOf(c) = H /\ c.d = 0 THEN DefRecv + 1
+        ELSE EffOf(c) + c.d - 1
 \* target sizes handed to the driver; 0 = the driver chooses (gzip: whatever the content gives)
 Target(c) ==
   LET t == T(c) IN
@@ -64,5 +74,6 @@ I_RefOutcome == \A u \in Us(cfg), w \in Ws(cfg) :
 I_Table == /\ tgt.u >= 0 /\ tgt.w >= 0 /\ (tgt.u # 0 \/ tgt.w # 0)
            /\ (cfg.shape = "shrink" /\ tgt.u # 0 /\ tgt.w # 0 => tgt.u > tgt.w)
            /\ (cfg.shape = "expand" /\ tgt.u # 0 /\ tgt.w # 0 => tgt.u < tgt.w)
-           /\ EffOf(cfg) \in {S, L, DefRecv, DefSend}
+           /\ EffOf(cfg) \in {S, L, DefRecv, DefSend, H}
+           /\ H > DefRecv + 2 /\ H < Cap
 ====
